@@ -22,6 +22,7 @@ def clone_val(e, v):
 def veq(e, x, y):
     """structural equality -> bool or z3 Bool"""
     x = e.deref(x); y = e.deref(y)
+    if x is None or y is None: return x is y
     if isinstance(x, EnumV) and isinstance(y, EnumV):
         if is_sym(x.variant) or is_sym(y.variant):
             dx = e.discriminant(x); dy = e.discriminant(y)
@@ -412,3 +413,27 @@ def _(e, c, a, raw):
        'begin_panic', 'panic_fmt', 'core::panicking::assert_failed', 'std::rt::begin_panic', 'std::rt::panic_fmt',
        'std::process::abort', 'std::process::exit', 're:^(core|std)::panicking::\\w+$', 'assert_failed', 'unwrap_failed', 'expect_failed')
 def _(e, c, a, raw): raise Panic('explicit panic: ' + c)
+
+# closure / fn-pointer calls through the Fn* traits: the argument list arrives as a tuple
+@model('re:^<.* as Fn(Mut|Once)?<.*>>::call(_mut|_once)?$', 're:^core::ops::function::Fn(Mut|Once)?::call(_mut|_once)?$')
+def _(e, c, a, raw):
+    args = a[1].slots if isinstance(a[1], Agg) else ([] if isinstance(a[1], Unit) else [a[1]])
+    return e.call_value(a[0], list(args))
+
+# ---- opaque path values ---------------------------------------------------------------------------
+@model('re:^<(std::path::)?PathBuf as From<.*>>::from$', 'PathBuf::from', 're:^<(std::path::)?PathBuf as FromStr>::from_str$', 'Path::new', 'Path::to_path_buf', 'Path::to_owned',
+       're:^<(std::path::)?Path as ToOwned>::to_owned$', 're:^<(std::path::)?PathBuf as Clone>::clone$', 're:^<(std::path::)?PathBuf as Deref>::deref$',
+       're:^<(std::path::)?PathBuf as AsRef<(std::path::)?Path>>::as_ref$', 'PathBuf::as_path', 're:^<(std::path::)?Path as AsRef<(std::path::)?Path>>::as_ref$')
+def _(e, c, a, raw):
+    v = deref(e, a[0])
+    if isinstance(v, Opaque): r = v
+    else: r = Opaque('Path', v)
+    return OK(r) if c.endswith('from_str') else r
+@model('Path::to_str', 'PathBuf::to_str')
+def _(e, c, a, raw): return SOME(deref(e, a[0]).payload)
+@model('Path::to_string_lossy', 'Path::display', 'PathBuf::display')
+def _(e, c, a, raw):
+    v = deref(e, a[0])
+    return EnumV('Cow', 'Borrowed', [v.payload]) if c.endswith('lossy') else v
+@model('re:^<(std::path::)?(PathBuf|Path) as PartialEq>::eq$')
+def _(e, c, a, raw): return veq(e, a[0], a[1])
